@@ -31,7 +31,7 @@ fn run_cgr(recs: &[Vec<u8>], size: usize, threads: usize) -> Result<String, Stri
 /// as run_cgr, and also what the output file holds after the call (whatever the call returned)
 fn run_cgr_keep(recs: &[Vec<u8>], size: usize, threads: usize) -> (Result<String, String>, Vec<u8>) {
     let sc = Scratch::new("cgr");
-    let inp = sc.path("in.fa");
+    let inp = sc.path(in_name());
     let out = sc.path("out.txt");
     write_fasta(&inp, recs);
     maybe_stale(&out);
@@ -180,6 +180,12 @@ pub fn c11(o: &Opts) -> Outcome {
         std::env::remove_var("VERIF_STALE_OUTPUT");
         if let Some(mut w) = w { w.push(("stale_output".into(), "the output file existed before the run, holding 400 longer lines".into())); return Outcome { cases, witness: Some(w) }; }
     }
+    // multi-member gzip input
+    {
+        let recs: Vec<Vec<u8>> = vec![b"ACGTTGCA".to_vec(), b"GGATC".to_vec(), b"ACGTu".to_vec(), b"TTGACC".to_vec(), b"A".to_vec()];
+        cases += recs.len() as u64;
+        if let Some(w) = with_gzm(|| c11_batch(&recs, 8, 2)) { return Outcome { cases, witness: Some(w) }; }
+    }
     // rejection among ordinary records, for several worker counts
     for threads in [1usize, 2, 4] {
         let recs: Vec<Vec<u8>> = vec![b"ACGT".to_vec(), b"GGTTA".to_vec(), b"ACGTNACGT".to_vec(), b"TTT".to_vec()];
@@ -192,7 +198,7 @@ pub fn c11(o: &Opts) -> Outcome {
 /// C12: k-mer CGR rows through the public file API
 pub fn c12_batch(recs: &[Vec<u8>], k: usize, size: usize, norm: bool, threads: usize) -> Option<Vec<(String, String)>> {
     let sc = Scratch::new("ocgr");
-    let inp = sc.path("in.fa");
+    let inp = sc.path(in_name());
     let out = sc.path("out.txt");
     write_fasta(&inp, recs);
     maybe_stale(&out);
@@ -237,6 +243,12 @@ pub fn c12_batch(recs: &[Vec<u8>], k: usize, size: usize, norm: bool, threads: u
 pub fn c12(o: &Opts) -> Outcome {
     let mut cases = 0u64;
     if let Some(inp) = &o.input {
+        if inp.contains_key("sequence_of_sizes") {
+            for size in [16usize, 32, 4] {
+                if let Some(w) = c12_batch(&[unshow(&inp["seq"])], inp["k"].parse().unwrap(), size, inp["norm"] == "true", inp["threads"].parse().unwrap()) { return Outcome { cases: 3, witness: Some(w) }; }
+            }
+            return Outcome { cases: 3, witness: None };
+        }
         return Outcome { cases: 1, witness: c12_batch(&[unshow(&inp["seq"])], inp["k"].parse().unwrap(), inp["size"].parse().unwrap(), inp["norm"] == "true", inp["threads"].parse().unwrap()) };
     }
     let mut rng = Rng(o.seed.wrapping_mul(0x9E3779B97F4A7C15) | 1);
@@ -249,8 +261,20 @@ pub fn c12(o: &Opts) -> Outcome {
             }
         }
     }
-    // counts beyond 2^24 (where a single-precision accumulator stops counting): thorough tier only (17 M bases)
-    if o.thorough {
+    // multi-member gzip input
+    {
+        let recs: Vec<Vec<u8>> = vec![b"ACGTTGCA".to_vec(), b"GGATC".to_vec(), b"ACGTNACGT".to_vec(), b"TTGACC".to_vec(), b"A".to_vec()];
+        cases += recs.len() as u64;
+        if let Some(w) = with_gzm(|| c12_batch(&recs, 2, 8, true, 2)) { return Outcome { cases, witness: Some(w) }; }
+    }
+    // two computers with the same k and different square sizes in one process (nothing may be shared between them)
+    for size in [16usize, 32, 4] {
+        let recs: Vec<Vec<u8>> = vec![b"ACGTTGCAAT".to_vec(), b"GGATC".to_vec()];
+        cases += recs.len() as u64;
+        if let Some(mut w) = c12_batch(&recs, 3, size, false, 2) { w.push(("sequence_of_sizes".into(), "16, 32, 4 with k=3 in one process".into())); return Outcome { cases, witness: Some(w) }; }
+    }
+    // counts beyond 2^24 (where a single-precision accumulator stops counting): one record of 17 M bases
+    {
         let big = vec![vec![b'A'; 17_000_000], b"ACGTAC".to_vec()];
         for norm in [false, true] {
             cases += 1;
